@@ -71,6 +71,27 @@ def run(ctx):
                 for cc in (base, t):
                     if cc is not None:
                         cc = dict(cc); cc["name"] = "heavy_weight"; cases.append(cc)
+    # exactly ONE external vertex: subsets that avoid it are not momentum spanning (their omega must not have the whole graph's dod
+    # subtracted). Accepted graphs in which such a subset has 0 < omega <= dod (rejection sampling), plus rejected ones
+    made = 0
+    for _ in range(4000):
+        if made >= (12 if ctx.quick else 60):
+            break
+        name = rng.choice(["triangle", "box", "sunrise", "bubble_leg", "double_triangle", "kite", "bubble_chain"])
+        edges, mp, _ = gen.relabel(rng, list(gen.CATALOGUE[name]))
+        n = len(edges)
+        D = rng.choice([2, 3, 4, 6])
+        massive = [False] * n if rng.random() < 0.7 else [rng.random() < 0.3 for _ in range(n)]
+        ext = [rng.choice(list(mp))]
+        w = [rng.choice([0.5, 0.7, 0.9, 1.1, 1.3, 1.6, 2.0, 2.5]) for _ in range(n)]
+        dod, Lf, table = oracle.table_oracle(edges, w, massive, ext, D)
+        if dod <= 0 or oracle.divergent_subsets(table):
+            continue
+        if not any(table[m][2] <= dod and not any(ext[0] in edges[e] for e in range(n) if m >> e & 1)
+                   and all(m >> e & 1 for e in range(n) if massive[e]) for m in range(1, (1 << n) - 1)):
+            continue
+        made += 1
+        cases.append(dict(edges=edges, weights=w, massive=massive, ext=ext, D=D, table=table, dod=dod, loops=Lf, accepted=True, name="single_external"))
     # the same endpoints, weights and externals under another mass pattern (history inside one process)
     for c in list(cases[: (25 if ctx.quick else 200)]):
         c2 = graphs.remass(rng, c)
